@@ -186,6 +186,19 @@ def rule_P2(ctx, only=None, rid='C11.P2.slots'):
                                 problems.append(
                                     f'`{ast.unparse(t)}` is not keyed by the '
                                     f'loop keys {sorted(keys)}')
+            # every slot takes the result of its task on every run: a store
+            # of `out[i]...` under a condition keeps whatever the slot held
+            # (with worker processes the task worked on a copy)
+            for s in ast.walk(lp):
+                if isinstance(s, (ast.Assign, ast.AugAssign)) and any(
+                        isinstance(x, ast.Name) and x.id == out
+                        for x in ast.walk(s.value)):
+                    gs = au.guards_of(s, lp)
+                    if gs:
+                        problems.append(
+                            f'`{au.stext(s)[:60]}` only under '
+                            f'`{ast.unparse(gs[0][0])}`: the slot keeps its '
+                            'old content otherwise')
             ctx.check(rid, cons, not problems,
                       '; '.join(problems), ctx.where(mod, lp),
                       sample={'site': qn, 'tasks_from': S, 'slots_from': S2})
@@ -409,6 +422,52 @@ def rule_P4_inputs(ctx):
            f'arguments ({n} found)', sample={'stores_on_arguments': n})
 
 
+def _identity_tests(tree):
+    """`a is b` / `a is not b` between two objects (neither side one of the
+    singletons None / True / False / ...)."""
+    out = []
+    for n in ast.walk(tree):
+        if not isinstance(n, ast.Compare):
+            continue
+        left = n.left
+        for op, c in zip(n.ops, n.comparators):
+            if isinstance(op, (ast.Is, ast.IsNot)) and not any(
+                    isinstance(x, ast.Constant) and (
+                        x.value is None or x.value is True or
+                        x.value is False or x.value is Ellipsis)
+                    for x in (left, c)):
+                out.append(n)
+            left = c
+    return out
+
+
+def rule_P4_identity(ctx):
+    """Object identity is the one thing that differs between the modes:
+    fields, grids and models that come back from a worker process or a file
+    are equal copies, those of a sequential in-memory run are the very
+    objects.  A decision of the task path taken by `is` between two objects
+    therefore depends on how the previous run was executed."""
+    # the matcher itself (expected count on the tree is zero)
+    probe = ast.parse('if a.grid is not g and b is None and c is not True:\n'
+                      '    pass')
+    ctx.anchor(len(_identity_tests(probe)) == 1, 'identity-test matcher')
+    n = 0
+    for rel, scope in ((SIMS, 'Simulation'), (MP, None),
+                       ('emg3d/fields.py', None), ('emg3d/solver.py', None)):
+        mod = ctx.repo.mod(rel)
+        tree = mod.cls(scope) if scope else mod.tree
+        for t in _identity_tests(tree):
+            n += 1
+            ctx.check('C11.P4.purity', f'{rel}: `{ast.unparse(t)[:60]}`',
+                      False, 'decision by object identity: equal objects '
+                      'that went through a worker process or a file are '
+                      'different objects, so sequential, parallel and '
+                      'file-based runs take different branches',
+                      ctx.where(mod, t))
+    ctx.ok('C11.P4.purity', 'task path: decisions by object identity '
+           f'({n} found)', sample={'identity_tests': n})
+
+
 def run(ctx):
     ctx.explanation = (
         'Order/slot discipline is decided on the AST: return expressions of '
@@ -426,4 +485,5 @@ def run(ctx):
     rule_P3_worker(ctx)
     rule_P4(ctx)
     rule_P4_inputs(ctx)
+    rule_P4_identity(ctx)
     rule_P3_injective(ctx)
